@@ -195,6 +195,9 @@ class Gen:
             elif op == "do_for":
                 d = self.duration(1, 4)
                 mod = ["for", d[0], d[1]]
+            elif self.f.get("p_until_random") and self.t.chance(self.f["p_until_random"], 8, "until.random?"):
+                # the condition itself draws a random value every time it is evaluated
+                mod = ["untilrnd", self.t.intrange(2, 3, "until.rnd.n")]
             else:
                 mod = ["until", self.table("cond")]
             return ["do", names, mod]
